@@ -74,7 +74,7 @@ type VerifMapSnapshot struct {
 	Stream     []VerifMapStreamItem
 	State      []VerifMapEntry // sorted by key
 	Scores     map[string]int64
-	KeyExpires map[string]int64 // key -> keyExpires[ch\x00key]
+	KeyExpires map[string]int64 // key -> keyExpires[ch\x00key], for the keys of the state
 	ExpiresAt  int64            // expires[ch], 0 if absent
 	RemovesAt  int64            // removes[ch], 0 if absent
 	KeyQueue   int              // length of the key expiry queue (all channels)
@@ -89,15 +89,14 @@ func VerifMapPeek(e *MemoryMapBroker, ch string) VerifMapSnapshot {
 	s.ExpiresAt = h.expires[ch]
 	s.RemovesAt = h.removes[ch]
 	s.KeyQueue = h.keyExpireQueue.Len()
-	prefix := ch + "\x00"
-	for ck, at := range h.keyExpires {
-		if len(ck) > len(prefix) && ck[:len(prefix)] == prefix {
-			s.KeyExpires[ck[len(prefix):]] = at
-		}
-	}
 	c, ok := h.channels[ch]
 	if !ok {
 		return s
+	}
+	for k := range c.state {
+		if at, ok := h.keyExpires[h.makeChKey(ch, k)]; ok {
+			s.KeyExpires[k] = at
+		}
 	}
 	s.Exists = true
 	s.Ordered = c.ordered
